@@ -15,7 +15,8 @@ EqF(f, x, y) == x.some = y.some /\ (x.some => (IF IsNestedTy(f.ty) THEN EqS(Nest
 EqFields(fs, xs, ys, i) == IF i > Len(fs) THEN TRUE ELSE (fs[i].skip \/ EqF(fs[i], xs[i], ys[i])) /\ EqFields(fs, xs, ys, i + 1)
 EqS(S, a, b) == IF S.kind = "struct" THEN Len(a) = Len(S.fields) /\ Len(b) = Len(S.fields) /\ EqFields(S.fields, a, b, 1)
                 ELSE a.var = b.var /\ LET fs == S.variants[a.var].fields IN Len(a.fv) = Len(fs) /\ Len(b.fv) = Len(fs) /\ EqFields(fs, a.fv, b.fv, 1)
-DecIs(S, o, v, n) == o.ok /\ EqS(S, o.val, v) /\ o.pos = n
+\* ... and every field of a borrowing type points into the input (o.bor)
+DecIs(S, o, v, n) == o.ok /\ EqS(S, o.val, v) /\ o.pos = n /\ o.bor
 Why(e) ==
    CASE e.name = "rt" ->
           LET p == Project(e.schema, e.schema, e.val) IN
